@@ -28,6 +28,10 @@ type emSpec struct {
 	hFlipBit  int  // bit of H flipped after everything is computed; -1 none
 	setTopBit bool // set the highest bit of the emLen-octet string after masking
 	mHash     []byte
+	// hXorAt >= 0: octet hXorAt of H is altered BEFORE the data block is
+	// masked, so that everything but the final comparison of H is consistent
+	hXorAt int
+	hXor   byte
 }
 
 func buildEM(h crypto.Hash, s emSpec, emBits int) []byte {
@@ -41,6 +45,9 @@ func buildEM(h crypto.Hash, s emSpec, emBits int) []byte {
 	d.Write(s.mHash)
 	d.Write(s.salt)
 	H := d.Sum(nil)
+	if s.hXor != 0 {
+		H[s.hXorAt%hLen] ^= s.hXor
+	}
 	db := make([]byte, emLen-hLen-1)
 	psLen := len(db) - len(s.salt) - 1
 	db[psLen] = s.sep
@@ -139,6 +146,14 @@ func craftWith(r *lib.Rng, k *rsaKey, d *big.Int, h crypto.Hash, msg []byte, var
 		s := honest
 		s.hFlipBit = int(r.U32())
 		add("em:h-bitflip", msg, sign(buildEM(h, s, k.emBits)))
+	}
+	// H altered in ONE octet with the data block masked under the altered
+	// value: only the final comparison of H tells it from a valid encoding
+	for _, at := range []int{0, 1, hLen / 2, hLen - 2, hLen - 1, r.Intn(hLen)} {
+		s := honest
+		s.hXorAt = at
+		s.hXor = lib.Pick(r, byte(0x01), byte(0x80), byte(0xFF), byte(1+r.Intn(255)))
+		add("em:h-octet-altered-consistently", msg, sign(buildEM(h, s, k.emBits)))
 	}
 	{
 		s := honest
